@@ -250,6 +250,11 @@ Definition mstep_l (cf : config) (st : state) (m : macro) (acc : list label) : o
   | MLost k => one_l cf st (LLost k) acc
   | MDrained k =>
       if c_state (get_conn st k) =? c_connectionClosed then Some (st, acc) else one_l cf st (LDrained k) acc
+  | MStep1 t mask =>
+      match lookup tid_eqb t (threads st) with
+      | Some (i :: _) => one_l cf st (LStep t (room_for mask i)) acc
+      | _ => None
+      end
   end.
 
 (* newest label first *)
